@@ -474,6 +474,43 @@ def _lst(l):
     return "[" + ",".join(str(x) for x in l) + "]"
 
 
+# the watcher options the model's watcher record carries (lean/CircusModel/Core/Commands.lean `optionPairs`); every other
+# option of the real watcher (cmd, env, uid, …) is left out of the compared body on both sides
+OPT_MS = ("graceful_timeout", "warmup_delay")          # seconds (int or float) in circus, integer ms in the compared text
+OPT_INT = ("max_age", "max_retry", "numprocesses", "priority", "stop_signal")
+OPT_BOOL = ("on_demand", "respawn", "send_hup", "stop_children")
+OPT_TRUTH = ("singleton",)                               # never type-checked by circus: compared by truthiness
+GLOBAL_OPTS = ("endpoint", "stats_endpoint", "pubsub_endpoint", "check_delay", "multicast_endpoint")
+
+
+def option_value_text(k, v):
+    """canonical text of one option value (never a float); `?…` = a value of a type the model cannot hold"""
+    if k in OPT_MS:
+        if isinstance(v, (int, float)) and v == v and abs(v) < 1e9:
+            return "%d" % int(round(float(v) * 1000))
+        return "?%s" % type(v).__name__
+    if k in OPT_TRUTH:
+        return "true" if v else "false"
+    if k in OPT_BOOL:
+        return ("true" if v else "false") if isinstance(v, bool) else "?%s" % type(v).__name__
+    if isinstance(v, bool) or not isinstance(v, int):
+        return "?%s" % type(v).__name__
+    return "%d" % v
+
+
+def _options_text(opts):
+    """`options=` body of options / get (watcher options by name, sorted) and of globaloptions (the names, sorted)"""
+    if not isinstance(opts, dict):
+        return "options=?"
+    items = []
+    for k in sorted(opts):
+        if k in OPT_MS or k in OPT_INT or k in OPT_BOOL or k in OPT_TRUTH:
+            items.append("%s:%s" % (k, option_value_text(k, opts[k])))
+        elif k in GLOBAL_OPTS:
+            items.append(k)
+    return "options=" + ";".join(items)
+
+
 def body_of(resp):
     """the part of an ok-reply that is compared (DESIGN 4.4): results of the modelled commands"""
     if resp.get("status") == "error":
@@ -499,6 +536,11 @@ def body_of(resp):
         return "stats=%s:%s" % (enc(resp["name"]) if isinstance(resp["name"], str) else "?", _lst(list(resp["info"])))
     if "statuses" in resp:
         parts.append("statuses=" + ",".join("%s:%s" % (enc(n), st) for n, st in resp["statuses"].items()))
+    if "options" in resp:
+        parts.append(_options_text(resp["options"]))
+    if "sockets" in resp:
+        parts.append("sockets=" + (_lst([s.get("name") if isinstance(s, dict) else "?" for s in resp["sockets"]])
+                                   if isinstance(resp["sockets"], list) else "?"))
     if "info" in resp:
         i = resp["info"]
         if i is None:
@@ -606,6 +648,11 @@ class Sim(object):
             return {"pid": process.pid}
         self._saved.append((P, "get_info", P.get_info))
         P.get_info = get_info
+        # `dstats` asks psutil about the daemon itself (here: the harness process, with a real 10 ms cpu_percent sleep):
+        # figures outside the model, replaced by a constant record
+        import circus.commands.dstats as D
+        self._saved.append((D, "get_info", D.get_info))
+        D.get_info = lambda process=None, interval=0, with_childs=False: {"pid": 0, "children": []}
         # the jitter added to max_age is a parameter of the model, fixed to the least value the code asks for
         # (`randint(0, max_age_variance)`: nothing is added) — a worker is never expired before max_age
         W.randint = lambda a, b: a
@@ -893,16 +940,32 @@ class Sim(object):
         return "s %s %s | %s | %s | %s | %s | t=%d" % (arb._exclusive_running_command or "-", flags, " ".join(ws) or "-",
                                                      names, sl, self.k.snapshot(), self.k.now)
 
+    def options_digest(self):
+        """for the oracles only (not compared with the model): per registered watcher, a digest of ALL its option values as the
+        real `Watcher.options()` reports them (cmd, env, uid, … included) — `name:digest` in list order"""
+        import hashlib
+        out = []
+        for w in self.arb.watchers:
+            try:
+                txt = json.dumps([[k, v] for k, v in w.options()], sort_keys=True, default=repr)
+            except Exception as e:                      # options() itself raised: that is a state of its own
+                txt = "raised %s" % type(e).__name__
+            out.append("%s:%s" % (enc(w.name), hashlib.sha1(txt.encode()).hexdigest()[:10]))
+        return " ".join(out) or "-"
+
+    def step_record(self, op):
+        return {"op": op, "lines": list(self.k.log), "snap": self.snapshot() if not self.blocked else "s blocked",
+                "slept": self.k.slept, "opts": self.options_digest() if not self.blocked else "-"}
+
     def run(self):
-        """returns list of steps: {"op":…, "lines":[…], "snap": "…", "slept": ms}"""
+        """returns list of steps: {"op":…, "lines":[…], "snap": "…", "slept": ms, "opts": "…"}"""
         steps = []
         self.setup()
         try:
             for op in self.sc["ops"]:
                 self.k.log = []
                 self.apply(op)
-                steps.append({"op": op, "lines": list(self.k.log), "snap": self.snapshot() if not self.blocked else "s blocked",
-                              "slept": self.k.slept})
+                steps.append(self.step_record(op))
                 if self.blocked:
                     break
         finally:
